@@ -177,8 +177,11 @@ def build_single(src, tag, flags, compiler="g++"):
     return exe
 
 
-def run_plan(exe, plan_path, out_path, watchdog_ms=0, timeout=3600):
-    r = sh([exe, plan_path, out_path, str(watchdog_ms)], timeout=timeout)
+def run_plan(exe, plan_path, out_path, watchdog_ms=0, timeout=3600, only=None):
+    env = dict(os.environ)
+    if only:
+        env["VD_ONLY"] = ",".join(only)
+    r = sh([exe, plan_path, out_path, str(watchdog_ms)], timeout=timeout, env=env)
     if r.returncode != 0:
         raise InfraError("harness run failed rc=%d: %s" % (r.returncode, r.stdout[-2000:]))
     return r.stdout
